@@ -683,6 +683,8 @@ def CVal.addOutcome : CVal α → CVal α → Option Bool
     | .error _ => some false
   | .seq ta _, .seq tb _ => if ta == tb then some true else Option.none
   | .str _, .str _ => some true
+  | .str _, .atom (.qty _) => some false      -- `str + Quantity`: quantities raises ValueError ("units must be a scalar Quantity …")
+  | .atom (.qty _), .str _ => some false
   | _, _ => Option.none
 
 /-- `compare_equality(a, b)` (units.py 483-519) beyond scalars.  `fuel` bounds the recursion depth (nesting depth of the arguments).
